@@ -1,7 +1,8 @@
 """Helpers for C08: wire-message builders, SipHash-1-3 (std DefaultHasher) oracle, a parser for
 Rust's derived Debug output, the `codec` harness runner, and Python reference splices."""
-import json, struct, subprocess
+import json, os, re, shutil, struct, subprocess, time
 from concurrent.futures import ThreadPoolExecutor
+import vlib
 
 M64 = (1 << 64) - 1
 
@@ -255,3 +256,47 @@ def bind_max_param_len(b: bytes):
         return worst
     except struct.error:
         return 0
+
+
+# ------------------------------------------------------------------ coqc evaluation with large outputs
+def coq_eval(name, preamble, exprs, shard=200, timeout=900, procs=16):
+    """Like vlib.coq_eval, but coqc writes to a file: vlib's version keeps stdout in a pipe that it only
+    reads after exit, which blocks forever once a shard prints more than the pipe buffer (byte lists do)."""
+    d = os.path.join(vlib.TMP, name)
+    shutil.rmtree(d, ignore_errors=True)
+    os.makedirs(d)
+    shards = [exprs[i:i + shard] for i in range(0, len(exprs), shard)] or [[]]
+
+    def launch(i):
+        fn = os.path.join(d, "cases_%d.v" % i)
+        with open(fn, "w") as f:
+            f.write("Set Printing Width 100000000. Set Printing Depth 100000000.\n")
+            f.write(preamble + "\n")
+            for e in shards[i]:
+                f.write("Eval vm_compute in (%s).\n" % e)
+        out = open(os.path.join(d, "out_%d.txt" % i), "wb")
+        return subprocess.Popen(["timeout", str(timeout), "coqc", "-noglob", "-Q", vlib.COQ, "PV", "-w", "none", fn],
+                                stdout=out, stderr=subprocess.STDOUT, cwd=d), out
+
+    pending, running, results = list(range(len(shards))), {}, [None] * len(shards)
+    while pending or running:
+        while pending and len(running) < procs:
+            i = pending.pop(0)
+            running[i] = launch(i)
+        for i, (p, out) in list(running.items()):
+            if p.poll() is not None:
+                out.close()
+                txt = open(os.path.join(d, "out_%d.txt" % i), "rb").read().decode("utf-8", "replace")
+                if p.returncode != 0:
+                    raise RuntimeError("coqc failed (rc %s) on %s/cases_%d.v:\n%s" % (p.returncode, d, i, txt[-3000:]))
+                results[i] = txt
+                del running[i]
+        time.sleep(0.02)
+    vals = []
+    for i, out in enumerate(results):
+        got = [x.rsplit("\n     : ", 1)[0].strip() for x in re.split(r"(?m)^     = ", out)[1:]]
+        if len(got) != len(shards[i]):
+            raise RuntimeError("could not parse coqc output of shard %d (%d vs %d)" % (i, len(got), len(shards[i])))
+        vals.extend(got)
+    shutil.rmtree(d, ignore_errors=True)
+    return vals
